@@ -154,6 +154,13 @@ class Raw:
         self.text, self.label = text, label
 
 
+class SourceCheck:
+    """a mechanical condition on the real source text that a trusted model relies on; func(repo) raises ExtractError (-> unit undecided) when it no longer holds"""
+
+    def __init__(self, label, func):
+        self.label, self.func = label, func
+
+
 class RawFile:
     def __init__(self, path, label=None):
         self.path, self.label = path, label or os.path.basename(path)
@@ -1158,6 +1165,9 @@ def build_unit(unit, repo, unit_dir, canary=False):
                 out.add(ex.expand_id(it), ('idmacro', it.name, it.file, 0))
             elif isinstance(it, Raw):
                 out.add(it.text, ('raw', it.label))
+            elif isinstance(it, SourceCheck):
+                it.func(repo)
+                out.add('// source condition checked on this run: %s' % it.label, ('raw', it.label))
             elif isinstance(it, RawFile):
                 p = it.path if os.path.isabs(it.path) else os.path.join(unit_dir, it.path)
                 rtxt = open(p).read()
